@@ -469,6 +469,10 @@ def datetime_add_shape(ctx, rule: str = "ADD") -> None:
             for base in ([utc] if utc else []) + ([f"add_duration({naive_copy}, {fwd})"] if off is False else []):
                 wants.append(f"self.tz.convert(datetime.datetime({fields(base)}, tzinfo=UTC))")
                 wants.append(f"self.tz.convert({base}.replace(tzinfo=UTC))")      # same tagging of a native, naive value
+            if sv not in wants and not (sv.startswith("self.tz.convert(") and "add_duration(" in sv):
+                # another way of getting from the UTC clock to the zone: no verdict from the way it is written (SHIFT.tabulated decides the values)
+                ctx.unverified(f"{rule}.fixed-exit", "DateTime.add/fixed/source", f"fixed-length branch rebuilds from `{sv[:100]}...`: not the form this rule reads", m.loc(ex[2]))
+                continue
             ctx.ob(f"{rule}.fixed-exit", "DateTime.add/fixed/source", sv in wants,
                    f"fixed-length branch rebuilds from `{sv[:100]}...`; must be self.tz.convert(<add_duration(wall clock "
                    f"- utcoffset) tagged tzinfo=UTC>)", m.loc(ex[2]))
